@@ -534,7 +534,7 @@ class KEval:
             base = self.ev(t.value, env, S, f, guards, loops, depth)
             idx = self.index_of(t.slice, env, S, f, guards, loops, depth)
             if isinstance(base, Ref):
-                val = v if isinstance(v, (tuple, Ref)) else self.scalar(v)
+                val = v if isinstance(v, (tuple, Ref, Const)) else self.scalar(v)
                 S.stores.append(Store(base.name, base.idx + tuple(idx), val, op, guards + path, loops, node, base.local, f, base.origin))
             else:
                 S.notes.append(f"store into untracked base at line {node.lineno}: {unparse(t)[:60]}")
